@@ -45,6 +45,20 @@ def run(ctx):
                 nup = len(np.arange(np.log(M[-1]), np.log(10 ** 18), np.log(M[1]) - np.log(M[0]))) if extend else 0
                 lines.append(f"QUAD gtm {int(md)} {int(extend)} {nup} {len(M)} " + " ".join(bits(x) for x in M) + " " + " ".join(bits(x) for x in dndm))
                 exp.append((got, {"n": len(M), "dlog10m": dl, "mass_density": md}))
+                # the same table with NaN rows (at the top; sometimes also inside): the raw-table model (dropNaN, then the same program)
+                if rep % 3 == 0 and len(M) >= 9:
+                    dn_ = dndm.copy()
+                    dn_[-r.randint(1, 3):] = np.nan
+                    if rep % 6 == 0:
+                        dn_[r.randint(4, len(M) - 4)] = np.nan
+                    keep_ = ~np.isnan(dn_)
+                    Mf_ = M[keep_]
+                    if len(Mf_) >= 4:
+                        got_n = hmf_integral_gtm(M, dn_, md)
+                        ext_n = bool(Mf_[-1] < Mf_[0] * 10 ** 18 / Mf_[3])
+                        nup_n = len(np.arange(np.log(Mf_[-1]), np.log(10 ** 18), np.log(Mf_[1]) - np.log(Mf_[0]))) if ext_n else 0
+                        lines.append(f"QUAD gtmraw {int(md)} {int(ext_n)} {nup_n} {len(M)} " + " ".join(bits(x) for x in M) + " " + " ".join(bits(x) for x in dn_))
+                        exp.append((got_n, {"n": len(M), "dlog10m": dl, "mass_density": md, "nan_rows": int(np.sum(~keep_))}))
                 if not (np.all(got >= 0) and np.all(np.diff(got) <= 1e-12 * got[:-1].max())):
                     viol("standalone/sign-monotone", f"hmf_integral_gtm(mass_density={md}) is negative or increasing", {"n": len(M)})
                 integ = M * dndm * (M if md else 1.0)
